@@ -11,6 +11,7 @@ package main
 //   float64                      Rat            (`0.0`, `-1.0`, `2` are rational literals)
 //   math.MaxFloat64              the parameter `big : Rat` of the generated function
 //   math.Abs(x)                  ratAbs x
+//   float64(x), x a number       x  (explicit conversion: the identity on values; it only forbids FMA fusion)
 //   geom.Point p: p.X p.Y        structure GPt {X Y : Rat}
 //   *geom.Bounds r: r.Min.X ...  Box: r.minX r.minY r.maxX r.maxY;  `var r geom.Bounds` = Box.zero
 //   &r, *r                       r  (value semantics; a pointer parameter that is assigned through
@@ -264,6 +265,16 @@ func (e *tenv) expr(x ast.Expr) (string, kind) {
 					xfail("len of a non-list")
 				}
 				return "(" + s + ".length : Int)", kInt
+			}
+			// explicit conversion float64(x) of a float64 expression: the identity on values (it only forbids fusing
+			// x into an FMA, Go spec "Floating-point operators"); the exact model has no rounding, so the argument is
+			// returned unchanged.  Anything but a number inside is outside the subset.
+			if _, shadowed := e.kinds["float64"]; f.Name == "float64" && len(t.Args) == 1 && !shadowed {
+				s, k := e.expr(t.Args[0])
+				if k != kRat {
+					xfail("float64(...) of a non-number")
+				}
+				return s, kRat
 			}
 			sig, ok := known[f.Name]
 			if !ok || sig.mutates {
